@@ -332,6 +332,30 @@ def reader_units(repo: str, writer_logicals):
     return table, parsers
 
 
+def pixel_conversions(repo: str) -> dict:
+    """how `_PixWrap.write` and `_make_pix_metadata` convert a row to its stored unit:
+    'to_unit' (scipp.to_unit on the row in its own dtype) or 'to_float64' (x.to(unit=…, dtype='float64'))"""
+    path = os.path.join(repo, 'src', 'scippneutron', 'io', 'sqw', '_build.py')
+    with open(path, encoding='utf-8') as f:
+        src = f.read()
+    mod = ast.parse(src)
+    out = {}
+    for node in ast.walk(mod):
+        if isinstance(node, ast.FunctionDef) and node.name in ('write', '_make_pix_metadata'):
+            seg = ast.get_source_segment(src, node) or ''
+            if node.name == 'write' and 'row_data' not in seg:
+                continue
+            key = 'pixels' if node.name == 'write' else 'range'
+            calls = {_func_name(c) for c in ast.walk(node) if isinstance(c, ast.Call)}
+            if 'to_unit' in calls:
+                out[key] = 'to_unit'
+            elif 'to' in calls and 'float64' in seg:
+                out[key] = 'to_float64'
+            else:
+                out[key] = 'unknown'
+    return out
+
+
 def tables(repo: str):
     order, rows, units = build_tables(repo)
     wt, logicals = writer_units(repo)
